@@ -77,13 +77,14 @@ def parse_decl(part):
     decl = {}
     for tok in part.split()[1:]:
         seq, prio, worker, deps = tok.split(":", 3)
-        ins, outs = set(), set()
+        ins, outs, mtx = set(), set(), set()
         for dd in deps.split(","):
             if not dd: continue
             kind, buf = dd.split("@")
             if buf == "?": return None, "task %s declares a dependence on an address that is no group buffer" % seq
             (ins if kind == "in" else outs).add(buf)
-        decl[int(seq)] = (ins, outs, int(worker))
+            if kind == "mtx": mtx.add(buf)
+        decl[int(seq)] = (ins, outs, int(worker), mtx)
     return decl, None
 
 
@@ -92,15 +93,96 @@ def check_footprints(trace, decl, fp):
     for line_ in trace:
         if line_.startswith("@task"):
             cur = int(line_.split()[1]); continue
+        if line_.startswith("@spawn"): continue
         cl = A.parse_call(line_)
         if cl.op == "--": continue
         if cur is None: return "kernel call outside any task: " + line_[:60]
         r, w = fp(cl)
-        ins, outs, _ = decl[cur]
+        ins, outs = decl[cur][0], decl[cur][1]
         if not w <= outs:
             return "task %d writes %s without declaring it (declared writes %s)" % (cur, sorted(w - outs), sorted(outs))
         if not r <= (ins | outs):
             return "task %d reads %s without declaring it (declared %s)" % (cur, sorted(r - ins - outs), sorted(ins | outs))
+    return None
+
+
+def parse_graph(part):
+    """G seq:parent:p1,p2 ...  ->  {seq: (parent, [preds])}"""
+    g = {}
+    for tok in part.split()[1:]:
+        seq, parent, preds = tok.split(":")
+        g[int(seq)] = (int(parent), [int(x) for x in preds.split(",") if x])
+    return g
+
+
+def check_conflicts(trace, decl, graph, fp, limit=700):
+    """Every two tasks that touch one buffer, at least one of them writing, must be ordered by the dependence graph the runtime
+    derived from the declarations (edges between SIBLING tasks only; a child inherits what precedes its parent), or be
+    mutually exclusive (both declare the buffer in commute mode and are siblings)."""
+    if len(graph) > limit:
+        return None
+    # footprints per task, split at spawn markers for parent tasks
+    foot = {}            # seq -> list of (r, w, spawned_before: set of children created before this call)
+    spawned = {}
+    cur = None
+    for line_ in trace:
+        if line_.startswith("@task"):
+            cur = int(line_.split()[1]); continue
+        if line_.startswith("@spawn"):
+            spawned.setdefault(cur, set()).add(int(line_.split()[1])); continue
+        cl = A.parse_call(line_)
+        if cl.op == "--" or cur is None: continue
+        r, w = fp(cl)
+        foot.setdefault(cur, []).append((r, w, frozenset(spawned.get(cur, ()))))
+    seqs = sorted(graph)
+    idx = {s_: i for i, s_ in enumerate(seqs)}
+    # ancestors-before: bitset of tasks that complete before task s starts
+    before = {}
+    children = {}
+    for s_ in seqs:
+        par, preds = graph[s_]
+        b = 0
+        for p_ in preds:
+            if p_ in idx: b |= before.get(p_, 0) | (1 << idx[p_])
+        if par in idx:
+            b |= before.get(par, 0)          # what precedes the parent precedes the child (the parent itself only partly)
+            children.setdefault(par, []).append(s_)
+        before[s_] = b
+    def ancestor_chain(s_):
+        out = []
+        while graph[s_][0] in graph:
+            out.append((graph[s_][0], s_)); s_ = graph[s_][0]
+        return out
+    touched = {}
+    for s_, lst in foot.items():
+        for r, w, _ in lst:
+            for b_ in r: touched.setdefault(b_, set()).add(s_)
+            for b_ in w: touched.setdefault(b_, set()).add(s_)
+    for buf, ts in touched.items():
+        ts = sorted(ts)
+        for i in range(len(ts)):
+            for j in range(i + 1, len(ts)):
+                a, b = ts[i], ts[j]
+                wa = any(buf in w for _, w, _ in foot[a]); wb = any(buf in w for _, w, _ in foot[b])
+                if not (wa or wb): continue
+                if (before[b] >> idx[a]) & 1 or (before[a] >> idx[b]) & 1: continue
+                # ancestor / descendant: the ancestor's calls made before it created the branch are ordered
+                anc = dict((x, via) for x, via in ancestor_chain(b))
+                if a in anc:
+                    via = anc[a]
+                    late = [(r, w) for r, w, sp in foot[a] if via in sp and (buf in w or (buf in r and wb))]
+                    if not late: continue
+                anc = dict((x, via) for x, via in ancestor_chain(a))
+                if b in anc:
+                    via = anc[b]
+                    late = [(r, w) for r, w, sp in foot[b] if via in sp and (buf in w or (buf in r and wa))]
+                    if not late: continue
+                # mutual exclusion: both commute on buf and siblings
+                ma = buf in decl[a][3] if len(decl[a]) > 3 else False
+                mb = buf in decl[b][3] if len(decl[b]) > 3 else False
+                if ma and mb and graph[a][0] == graph[b][0]: continue
+                return ("tasks %d and %d both touch %s (%s) but the declared dependences neither order them nor make them mutually exclusive "
+                        "(parents %d and %d)" % (a, b, buf, "write/write" if wa and wb else "read/write", graph[a][0], graph[b][0]))
     return None
 
 
@@ -115,12 +197,11 @@ def tsm_model_text(c):
     return "exectsm " + " ".join(t[1:7]) + " " + " ".join(t[10:])
 
 
-def run_tsm(rep, binary, tier, seed, sdir):
-    rng = vlib.Rng(seed).fork("c03tsm")
+def run_tsm(rep, binary, tier, seed, sdir, rt, nbases, nrand):
+    rng = vlib.Rng(seed).fork("c03tsm" + rt)
     bases = c09.gen_cases("quick", rng)
     rng.shuffle(bases) if hasattr(rng, "shuffle") else None
-    bases = [b for b in bases if int(b.split()[1]) <= 3][: (24 if tier == "quick" else 220)]
-    nrand = 2 if tier == "quick" else 12
+    bases = [b for b in bases if int(b.split()[1]) <= 3][:nbases]
     cases = []
     for b in bases:
         scheds = [(0, 1, 0), (1, rng.choice([1, 2, 8]), 0), (2, rng.choice([2, 3, 8]), 0), (4, 4, 0), (5, 16, 0)]
@@ -133,29 +214,33 @@ def run_tsm(rep, binary, tier, seed, sdir):
         if line.startswith(("ABORT", "MODEL", "?")):
             return line
         parts = line.split(" || ")
-        calls = [A.parse_call(x) for x in A.split_trace(parts[2]) if not x.startswith("@task")]
+        calls = [A.parse_call(x) for x in A.split_trace(parts[2]) if not x.startswith("@")]
         return (parts[0], parts[1], sorted(A.elementary(calls).items()))
 
     def oracle(c, line):
         t = c.split()
         parts = line.split(" || ")
-        m = c09.tsm_oracle(tsm_model_text(c), parts, trace_filter=lambda x: not x.startswith("@task"))
+        m = c09.tsm_oracle(tsm_model_text(c), parts, trace_filter=lambda x: not x.startswith("@"))
         if m: return "target/source run under schedule %s, %s workers: %s" % (POLICIES[int(t[7])], t[8], m)
         decl, m = parse_decl(parts[4])
         if m: return m
         S, Tg, stop, flags = c09.parse_case(tsm_model_text(c))
         cgs, pgs = group_maps(T.parse_dump(parts[0]))
         cgt, pgt = group_maps(T.parse_dump(parts[1]))
-        m = check_footprints(A.split_trace(parts[2]), decl, lambda cl: footprint_tsm(cl, cgs, pgs, cgt, pgt, S.H - 1))
+        fp = lambda cl: footprint_tsm(cl, cgs, pgs, cgt, pgt, S.H - 1)
+        m = check_footprints(A.split_trace(parts[2]), decl, fp)
         if m: return m
+        if len(parts) > 6:
+            m = check_conflicts(A.split_trace(parts[2]), decl, parse_graph(parts[6]), fp)
+            if m: return m
         stats[POLICIES[int(t[7])]] += 1
         return None
 
-    vlib.differential(rep, binary, cases, sdir, "omptsm", canon=canon, oracle=oracle, model_cases=[tsm_model_text(c) for c in cases],
+    vlib.differential(rep, binary, cases, sdir, rt + "tsm", canon=canon, oracle=oracle, model_cases=[tsm_model_text(c) for c in cases],
                       nontrivial=lambda c, i: " M2L " in i and " P2PTsm " in i and i.count("@task") > 6,
-                      clause=lambda c: "omptsm:%s" % POLICIES[int(c.split()[7])],
-                      abort_fields=lambda c, i: dict(executor="openmp-tsm", lifetime=("stack-use-after" in i)))
-    rep.coverage["schedules_tsm"] = dict(stats)
+                      clause=lambda c: rt + "tsm:%s" % POLICIES[int(c.split()[7])],
+                      abort_fields=lambda c, i: dict(executor=rt + "-tsm", lifetime=("stack-use-after" in i)))
+    rep.coverage["schedules_%s_tsm" % rt] = dict(stats)
 
 
 def case_text(tc, stop, flags, policy, Tn, sseed):
@@ -168,71 +253,93 @@ def model_text(c):
     return "exec " + " ".join(t[1:7]) + " " + " ".join(t[10:])
 
 
+RUNTIMES = [
+    # name, harness name, flags, defines, include dirs, share of the case budget
+    ("omp", "h_sched", OMPFLAGS, [], [], 1.0),
+    ("specx", "h_sched_specx", [], ["RT_SPECX", "TBF_USE_SPECX"], ["mockrt"], 0.75),
+    ("starpu", "h_sched_starpu", [], ["RT_STARPU", "TBF_USE_STARPU"], ["mockrt"], 0.75),
+]
+
+
+def run_single(rep, binary, tier, seed, sdir, rt, ntrees, nrand):
+    rng = vlib.Rng(seed).fork("c03" + ("" if rt == "omp" else rt))
+    cases = []
+    for tc in T.gen_random(rng, ntrees, 120 if tier == "quick" else 800, dims=(1, 2, 3), Hmax={1: 7, 2: 5, 3: 5}):
+        tc.per = 0
+        stop = rng.choice([2, 2, 0, 1])
+        flags = rng.choice([[63], [63], [63], [6, 9, 48], [2, 4, 8, 16, 33]])
+        scheds = [(0, 1, 0), (1, rng.choice([1, 2, 3, 8, 16]), 0), (2, rng.choice([2, 3, 8]), 0), (4, 4, 0), (5, 16, 0)]
+        scheds += [(3, rng.choice([1, 2, 3, 8, 16]), rng.below(1 << 30)) for _ in range(nrand)]
+        for pol, Tn, ss in scheds:
+            cases.append(case_text(tc, stop, flags, pol, Tn, ss))
+    stats = Counter()
+
+    def canon(c, line):
+        if line.startswith(("ABORT", "MODEL", "?")):
+            return line
+        parts = line.split(" || ")
+        calls = [A.parse_call(x) for x in A.split_trace(parts[1]) if not x.startswith("@")]
+        return (parts[0], sorted(A.elementary(calls).items()))
+
+    def oracle(c, line):
+        t = c.split()
+        tc = A.parse_exec_case(model_text(c))
+        parts = line.split(" || ")
+        dump = T.parse_dump(parts[0])
+        trace = A.split_trace(parts[1])
+        calls = [A.parse_call(x) for x in trace if not x.startswith("@")]
+        m = A.oracle_c02(tc, [x for x in calls if x.op != "--"])
+        if m: return "arguments: " + m
+        R, C = {}, {}
+        for tok in parts[2].split()[1:]:
+            k, v = tok.split("="); R[int(k)] = int(v)
+        for tok in parts[3].split()[1:]:
+            k, v = tok.split("="); lv, idx = k.split("/"); a, b = v.split(","); C[(int(lv), int(idx))] = (int(a), int(b))
+        s = max(0, tc.stop)
+        m = A.oracle_c01_values(tc, R, C, s)
+        if m: return "values differ from the sequential result under schedule %s, %s workers: %s" % (POLICIES[int(t[7])], t[8], m)
+        # declared dependences cover what each task touches
+        decl, m = parse_decl(parts[4])
+        if m: return m
+        cg, pg = group_maps(dump)
+        fp = lambda cl: footprint(cl, cg, pg, tc.H - 1)
+        m = check_footprints(trace, decl, fp)
+        if m: return m
+        if len(parts) > 6:
+            m = check_conflicts(trace, decl, parse_graph(parts[6]), fp)
+            if m: return m
+        stats[POLICIES[int(t[7])]] += 1
+        return None
+
+    vlib.differential(rep, binary, cases, sdir, rt, canon=canon, oracle=oracle, model_cases=[model_text(c) for c in cases],
+                      nontrivial=lambda c, i: " M2L " in i and i.count("@task") > 8,
+                      clause=lambda c: "%s:%s" % (rt, POLICIES[int(c.split()[7])]),
+                      abort_fields=lambda c, i: dict(executor=rt, lifetime=("stack-use-after" in i)))
+    rep.coverage["schedules" if rt == "omp" else "schedules_" + rt] = dict(stats)
+
+
 def run(tier, seed):
     rep = vlib.Report("C03", tier, seed, "proof")
     sdir = vlib.scratch("C03")
     try:
-        common.proof_part(rep, "Properties_C03", extra_trusted=["harness/mock_gomp.hpp: reading of the GOMP task ABI and of the OpenMP 4.5 depend semantics",
+        common.proof_part(rep, "Properties_C03", extra_trusted=["harness/mock_sched.hpp + mock_gomp.hpp: reading of the GOMP task ABI and of the OpenMP 4.5/5.0 depend semantics (sibling scope, in/out/mutexinoutset)",
+                                                               "harness/mockrt/Legacy/SpRuntime.hpp, harness/mockrt/starpu.h: API-compatible mocks of the Specx / StarPU subsets tbfmm uses (access modes -> the same dependence order)",
                                                                "C++ DRF-SC (true parallelism reduced to interleavings for data-race-free programs)"])
-        binary, err = vlib.build_harness("h_sched", extra_flags=OMPFLAGS)
-        if not binary:
-            rep.violation(dict(kind="build", clause="h_sched", has_input=True), "harness h_sched does not compile: " + err[-600:], dict(stderr=err))
-            return rep.finish()
-        rng = vlib.Rng(seed).fork("c03")
-        cases = []
-        ntrees = 28 if tier == "quick" else 600
-        nrand = 3 if tier == "quick" else 40
-        for tc in T.gen_random(rng, ntrees, 120 if tier == "quick" else 800, dims=(1, 2, 3), Hmax={1: 7, 2: 5, 3: 5}):
-            tc.per = 0
-            stop = rng.choice([2, 2, 0, 1])
-            flags = rng.choice([[63], [63], [63], [6, 9, 48], [2, 4, 8, 16, 33]])
-            scheds = [(0, 1, 0), (1, rng.choice([1, 2, 3, 8, 16]), 0), (2, rng.choice([2, 3, 8]), 0), (4, 4, 0), (5, 16, 0)]
-            scheds += [(3, rng.choice([1, 2, 3, 8, 16]), rng.below(1 << 30)) for _ in range(nrand)]
-            for pol, Tn, ss in scheds:
-                cases.append(case_text(tc, stop, flags, pol, Tn, ss))
-        stats = Counter()
-
-        def canon(c, line):
-            if line.startswith(("ABORT", "MODEL", "?")):
-                return line
-            parts = line.split(" || ")
-            calls = [A.parse_call(x) for x in A.split_trace(parts[1]) if not x.startswith("@task")]
-            return (parts[0], sorted(A.elementary(calls).items()))
-
-        def oracle(c, line):
-            t = c.split()
-            tc = A.parse_exec_case(model_text(c))
-            parts = line.split(" || ")
-            dump = T.parse_dump(parts[0])
-            trace = A.split_trace(parts[1])
-            calls = [A.parse_call(x) for x in trace if not x.startswith("@task")]
-            m = A.oracle_c02(tc, [x for x in calls if x.op != "--"])
-            if m: return "arguments: " + m
-            R, C = {}, {}
-            for tok in parts[2].split()[1:]:
-                k, v = tok.split("="); R[int(k)] = int(v)
-            for tok in parts[3].split()[1:]:
-                k, v = tok.split("="); lv, idx = k.split("/"); a, b = v.split(","); C[(int(lv), int(idx))] = (int(a), int(b))
-            s = max(0, tc.stop)
-            m = A.oracle_c01_values(tc, R, C, s)
-            if m: return "values differ from the sequential result under schedule %s, %s workers: %s" % (POLICIES[int(t[7])], t[8], m)
-            # declared dependences cover what each task touches
-            decl, m = parse_decl(parts[4])
-            if m: return m
-            cg, pg = group_maps(dump)
-            m = check_footprints(trace, decl, lambda cl: footprint(cl, cg, pg, tc.H - 1))
-            if m: return m
-            stats[POLICIES[int(t[7])]] += 1
-            return None
-
-        vlib.differential(rep, binary, cases, sdir, "omp", canon=canon, oracle=oracle, model_cases=[model_text(c) for c in cases],
-                          nontrivial=lambda c, i: " M2L " in i and i.count("@task") > 8,
-                          clause=lambda c: "omp:%s" % POLICIES[int(c.split()[7])],
-                          abort_fields=lambda c, i: dict(executor="openmp", lifetime=("stack-use-after" in i)))
-        rep.coverage["schedules"] = dict(stats)
-        run_tsm(rep, binary, tier, seed, sdir)
-        rep.coverage["rule"] = ("real TbfOpenmpAlgorithm + mock GOMP runtime: per tree the schedules immediate, all-deferred FIFO, LIFO, priority, priority-inverted and random linear extensions, "
-                                "worker counts 1,2,3,8,16, full and staged flag sets; trees d=1..3; non-trivial = M2L present and more than 8 tasks; the same for TbfOpenmpAlgorithmTsm on source/target tree pairs")
+        from concurrent.futures import ThreadPoolExecutor
+        with ThreadPoolExecutor(max_workers=3) as ex:
+            built = list(ex.map(lambda r: vlib.build_harness(r[1], extra_flags=r[2], sources=["h_sched.cpp"], defines=r[3], includes=r[4]), RUNTIMES))
+        for (rt, hname, flags, defines, incs, share), (binary, err) in zip(RUNTIMES, built):
+            if not binary:
+                rep.violation(dict(kind="build", clause=hname, has_input=True), "harness %s does not compile: %s" % (hname, err[-600:]), dict(stderr=err))
+                continue
+            ntrees = int((28 if tier == "quick" else 600) * share)
+            nrand = 3 if tier == "quick" else int(40 * share)
+            run_single(rep, binary, tier, seed, sdir, rt, ntrees, nrand)
+            run_tsm(rep, binary, tier, seed, sdir, rt, int((24 if tier == "quick" else 220) * share), 2 if tier == "quick" else int(12 * share))
+        rep.coverage["rule"] = ("real TbfOpenmpAlgorithm(Tsm) on the mock GOMP runtime, real TbfSmSpecxAlgorithm(Tsm) and TbfSmStarpuAlgorithm(Tsm) on API-compatible mock runtimes: per tree the schedules "
+                                "immediate, all-deferred FIFO, LIFO, priority, priority-inverted and random linear extensions (commute groups unordered), worker counts 1,2,3,8,16, full and staged flag sets; "
+                                "trees d=1..3; oracles: values/trace = sequential, declared accesses cover each task's footprint, every conflicting pair of tasks ordered or mutually exclusive; "
+                                "non-trivial = M2L present and more than 8 tasks")
         return rep.finish()
     finally:
         vlib.cleanup(sdir)
